@@ -48,7 +48,10 @@ KANI_UNITS['fold'] = {
     'fold_div_no_panic_and_traps_kept': {'tier': 'quick', 'complete': True},
     'fold_mod_no_panic_and_traps_kept': {'tier': 'quick', 'complete': True},
     'fold_div_mod_value': {'tier': 'thorough', 'complete': True},
-    'merge_arith_same_value': {'tier': 'quick', 'complete': True},
+    'merge_plus_same_value': {'tier': 'quick', 'complete': True},
+    'merge_plus_refuses_div_mod_mul_inner': {'tier': 'quick', 'complete': True},
+    'merge_mul_result_form': {'tier': 'quick', 'complete': True},
+    'merge_refused_for_other_outer_operators': {'tier': 'quick', 'complete': True},
     'merge_eq_ne_same_value': {'tier': 'quick', 'complete': True},
     'merge_ordering_same_value_all_inputs': {'tier': 'quick', 'complete': True},
     'merge_ordering_same_value_no_overflow': {'tier': 'quick', 'complete': True},
